@@ -793,7 +793,9 @@ pub(crate) fn check_if_response_is_matched(
             let last_number = last_header.header().number();
             // Samples were requested, but every requested difficulty is reached only within the
             // last n blocks: a server has nothing to sample and sends the last n blocks only.
-            let nothing_to_sample = last_n_count >= last_n_blocks && {
+            let nothing_to_sample = last_n_count >= last_n_blocks
+                && !prev_request.difficulties().is_empty()
+                && {
                 let first_last_n_header = &headers[reorg_count];
                 let total_difficulty_before_last_n = first_last_n_header
                     .total_difficulty()
